@@ -303,6 +303,41 @@ func c19(c *core.Ctx) {
 					fmt.Sprintf("the stubs' descriptor variable name is computed by %q but the registration function's by %q: with the option that changes one of them (legacy_desc_names) the stubs index into a variable that does not exist", feed["ServiceDesc"], regFeed))
 			}
 		}
+		// the file is created under exactly the package identity the naming service reports for it: the import
+		// path and the package name given to the file constructor are the two fields of ONE package value, as they
+		// are (the code model decides "same package: no qualifier, no import" by comparing that path with the path
+		// stored in every symbol, so a path that was cleaned, trimmed or rebuilt makes the file's own types foreign)
+		for _, gf := range p.LibFuncs(genPkg) {
+			core.Instrs(gf, func(in ssa.Instruction) {
+				call, ok := in.(*ssa.Call)
+				if !ok {
+					return
+				}
+				ci := core.InfoOf(&call.Call)
+				if ci.Name != "NewGoFile" || len(call.Call.Args) != 3 {
+					return
+				}
+				fieldOfPkg := func(v ssa.Value, want string) ssa.Value {
+					var base ssa.Value
+					okAll := core.AllOrigins(v, func(o ssa.Value) bool {
+						b, f, isF := core.FieldOf(core.Strip(o))
+						if !isF || f != want {
+							return false
+						}
+						base = b
+						return true
+					})
+					if !okAll {
+						return nil
+					}
+					return base
+				}
+				b1 := fieldOfPkg(call.Call.Args[1], "ImportPath")
+				b2 := fieldOfPkg(call.Call.Args[2], "Name")
+				same := b1 != nil && b2 != nil && (b1 == b2 || core.SameVal(b1, b2) || sameOrigins(b1, b2))
+				c.Check(same, core.FuncName(gf)+":file-package-identity", call.Pos(), "the output file is created with ImportPath and Name of the package value reported for the file, unchanged", "the output file is not created with the ImportPath and Name fields of one package value as they are (a path that was normalised or rebuilt differs from the one the file's own symbols carry: they are then qualified and imported like foreign ones, which is not valid Go and breaks byte-exact regeneration)")
+			})
+		}
 		c.Check(strings.Contains(feed["RequestType"], "GetOutputType"), gk+":data:output-type", gen.Pos(), "the type allocated by the unary stub is the method's OUTPUT type", fmt.Sprintf("the message type allocated for the unary response is fed from %q, not from the method's output type", feed["RequestType"]))
 		// each service gets its registration function: the emission of RegisterHandler<Svc> is executed in every
 		// iteration of the per-service loop (no fast path or option skips it)
